@@ -72,7 +72,8 @@ def infer_redirection(url, recursive=True):
             elif "youtube.com/redirect?" in url:
                 target = "https://" + potential_target
 
-    if target is None:
+    # NOTE: a relative target can resolve to the url itself
+    if target is None or target == url:
         return url
 
     if recursive:
